@@ -18,7 +18,18 @@ for d in seeded/*/; do
     fi
     git -C /repo reset -q
   fi
-  res=$(timeout 1800 ./bin/symgo check -prop $prop -tier quick 2>&1)
+  # run the harness that is recorded as catching the seed (plus the selftest); fall back to the whole
+  # property check when that is not a single harness of this property (FULL=1 forces the whole check)
+  only=$(python3 -c "
+import json,re
+d=json.load(open('$d/meta.json')); h=(d.get('detected_by') or '').strip()
+print(h if re.fullmatch(r'VerifH_[A-Za-z0-9_]+',h) else '')")
+  if [ -n "$only" ] && [ -z "$FULL" ]; then
+    res=$(timeout 1800 ./bin/symgo check -prop $prop -tier quick -only $only 2>&1)
+    if ! echo "$res" | grep -q "^$only:"; then res=$(timeout 1800 ./bin/symgo check -prop $prop -tier quick 2>&1); fi
+  else
+    res=$(timeout 1800 ./bin/symgo check -prop $prop -tier quick 2>&1)
+  fi
   code=$(echo "$res" | grep -o "exit=[0-9]" | tail -1)
   viol=$(echo "$res" | grep -m1 "harness=" | sed 's/^ *//' | cut -c1-160 | tr '|' '/')
   git -C /repo checkout -- .
